@@ -138,8 +138,14 @@ func TestRanges(t *testing.T) {
 		base := w.Replicas[0]
 		peerSide := copyAs(t, w, base, "peer", w.God)
 		common0 := base.Head().Height()
+		// shape of the answer: honest, random hostile edits of its elements, or a structural defect of the list
+		shape := rapid.SampledFrom([]string{"hostile", "hostile", "hostile", "honest", "gap", "repeated-height", "reversed", "hostile"}).Draw(t, "shape")
+		minBlocks := 1
+		if shape == "gap" {
+			minBlocks = 3
+		}
 		var chain []served
-		for i := rapid.IntRange(1, 5).Draw(t, "peerBlocks"); i > 0; i-- {
+		for i := rapid.IntRange(minBlocks, 5).Draw(t, "peerBlocks"); i > 0; i-- {
 			chain = append(chain, extendPeer(t, w, peerSide))
 		}
 		// the message an honest peer would send ...
@@ -151,10 +157,20 @@ func TestRanges(t *testing.T) {
 			hasCert = hasCert || !s.cert.Empty()
 		}
 		// ... and hostile edits of it
-		edit := "honest"
-		if pick(t, "hostile", 5) != 0 {
-			edit = "hostile"
+		edit := shape
+		switch shape {
+		case "hostile":
 			hostileRange(t, w, r)
+		case "gap":
+			k := 1 + pick(t, "gapAt", len(r.Blocks)-2)
+			r.Blocks = append(append([]*protocol.VerifRangeBlock{}, r.Blocks[:k]...), r.Blocks[k+1:]...)
+		case "repeated-height":
+			k := pick(t, "repeatAt", len(r.Blocks))
+			r.Blocks = append(r.Blocks, r.Blocks[k])
+		case "reversed":
+			for i, j := 0, len(r.Blocks)-1; i < j; i, j = i+1, j-1 {
+				r.Blocks[i], r.Blocks[j] = r.Blocks[j], r.Blocks[i]
+			}
 		}
 		evid.Count("range." + edit)
 		if hasDiff {
@@ -186,7 +202,12 @@ func TestRanges(t *testing.T) {
 		{
 			own := copyAs(t, w, base, "own-fork", w.God)
 			// the node's own branch, so that the peer's blocks are a fork
-			for i := pick(t, "ownLen", 3); i > 0; i-- {
+			// (the fork resolver weighs forks that are not longer than the own branch block by block: make that frequent)
+			ownLen := pick(t, "ownLen", 4)
+			if rapid.Bool().Draw(t, "ownBranchNotShorter") {
+				ownLen = len(chain) + pick(t, "ownExtra", 2)
+			}
+			for i := ownLen; i > 0; i-- {
 				w.Advance(15 * time.Second)
 				if err := own.AddBlock(own.EmptyBlock()); err != nil {
 					t.Fatalf("own empty block: %v", err)
